@@ -356,6 +356,10 @@ func runHist(o *Out, thorough bool, withUC bool) {
 		if ci%3 == 1 {
 			p.Tight = true
 		}
+		if ci%4 == 2 && !waitBias {
+			p.Tight = true
+			p.Capacity, p.Limits = true, true
+		}
 		if waitBias {
 			p = Profile{MaxStops: 4 + rng.Intn(5), MaxVehicles: 1 + rng.Intn(2), Windows: true, Waits: true, NonMetric: true,
 				TD: true, Limits: true, Tight: ci%2 == 0, ForceWindows: true}
@@ -465,11 +469,73 @@ func runHistCase(o *Out, ci int, hc *histCase, nops int, distinct map[string]boo
 		f()
 		return false
 	}
+	// stale moves are exercised in a dedicated share of the cases (tight limits, so that a kept move often
+	// becomes infeasible): an ACCEPTED stale move taints the case for the estimate-gated properties
+	staleCase := hc.Seed%4 == 0
+	var pending nextroute.SolutionMove
+	var pendingUnit nextroute.SolutionPlanUnit
+	pendingRole := ""
+	removedSince := false
+	fillLeft := 0
 	for step := 0; step < nops; step++ {
 		var opDesc string
 		before := snapOf(b, sol)
 		kind := rng.Intn(100)
+		if pending != nil {
+			// fill the vehicles with other units first, then execute the kept move
+			if fillLeft > 0 {
+				fillLeft--
+				kind = rng.Intn(40)
+			} else {
+				kind = 1000
+			}
+		}
 		switch {
+		case kind == 1000: // execute the move kept earlier, if it is still structurally valid
+			mv, u, role := pending, pendingUnit, pendingRole
+			pending = nil
+			// a move for a unit of units does not expose its member positions: it is still structurally
+			// valid if nothing was removed from any route since it was computed (every stop it refers to
+			// is still planned); insertions elsewhere only make it stale
+			_, nested := u.(nextroute.SolutionPlanUnitsUnit)
+			if u.Solution() != sol || u.IsPlanned() || (nested && removedSince) || (!nested && !moveStillValid(mv)) {
+				continue
+			}
+			for _, m := range memberStopsUnits(u) {
+				if m.IsPlanned() {
+					nested = false
+					u = nil
+					break
+				}
+			}
+			if u == nil {
+				continue
+			}
+			opDesc = "stale-execute(" + role + ")"
+			var ok bool
+			var e error
+			if doPanic(opDesc, func() { ok, e = mv.Execute(ctx) }) {
+				return
+			}
+			if e != nil {
+				violate("C16", "engine-error", "stale-Execute", e.Error())
+				return
+			}
+			o.Count("stale-execute:" + fmt.Sprintf("ok=%v", ok))
+			if !ok {
+				rejectedKinds["stale-execute-"+role] = true
+				if after := snapOf(b, sol); !snapSame(after, before) {
+					violate("C07", "rejected-execute-changed-solution", role+"|"+changedParts(before, after)+"|stale", diffSnap(before, after))
+				}
+			} else if !u.IsPlanned() {
+				violate("C07", "execute-succeeded-unit-not-planned", role+"|stale", "Execute returned true, unit is not planned")
+			} else if !tainted {
+				// an accepted stale move was admitted by estimates computed on an older state: constraints that
+				// are enforced by the estimate alone (maximum stops, attributes, no-mix) are only guaranteed for
+				// fresh moves, so what follows is outside C01/C09/C10's quantifier
+				tainted = true
+				o.Count("tainted-by:accepted-stale-move")
+			}
 		case kind < 40: // best move
 			unpl := unitsOf(sol, func(u nextroute.SolutionPlanUnit) bool { return !u.IsPlanned() && !u.IsFixed() })
 			if len(unpl) == 0 {
@@ -492,6 +558,17 @@ func runHistCase(o *Out, ci int, hc *histCase, nops int, distinct map[string]boo
 				bestMoveOracle(o, hc, sol, su, mv, role)
 			}
 			exe := mv.IsExecutable()
+			if exe && pending == nil && staleCase && rng.Intn(3) == 0 {
+				// keep the move and execute it later, after the solution has changed (a stale but
+				// structurally valid move: Execute must either apply it or reject it cleanly)
+				pending, pendingUnit, pendingRole = mv, u, role
+				removedSince = false
+				fillLeft = 2 + rng.Intn(4)
+				opDesc = "bestmove-kept(" + role + ")"
+				hc.Ops = append(hc.Ops, opDesc)
+				observe(sol, opDesc)
+				continue
+			}
 			var ok bool
 			var e error
 			if doPanic(opDesc+".Execute", func() { ok, e = mv.Execute(ctx) }) {
@@ -590,6 +667,7 @@ func runHistCase(o *Out, ci int, hc *histCase, nops int, distinct map[string]boo
 				return
 			}
 			o.Count("unplan:" + role + fmt.Sprintf(":ok=%v", ok))
+			removedSince = true
 			after := snapOf(b, sol)
 			if !ok {
 				rejectedKinds["unplan-"+role] = true
@@ -622,6 +700,7 @@ func runHistCase(o *Out, ci int, hc *histCase, nops int, distinct map[string]boo
 			}
 			after := snapOf(b, sol)
 			o.Count(fmt.Sprintf("vehicle-unplan:ok=%v", ok))
+			removedSince = true
 			if !ok && !snapSame(after, before) {
 				violate("C07", "rejected-unplan-changed-solution", "vehicle|"+changedParts(before, after), diffSnap(before, after))
 			}
@@ -673,6 +752,7 @@ func runHistCase(o *Out, ci int, hc *histCase, nops int, distinct map[string]boo
 				o.Count("check-error")
 			}
 			o.Count("check:" + verb)
+			removedSince = true
 			if after := snapOf(b, sol); !snapSame(after, before) {
 				violate("C18", "check-changed-solution", verb, diffSnap(before, after))
 			}
@@ -898,6 +978,46 @@ func bestMoveOracle(o *Out, hc *histCase, sol nextroute.Solution, su nextroute.S
 		o.Violate(Violation{Property: "C10", Clause: clause, Sig: "C10|" + clause + "|" + role,
 			Detail: fmt.Sprintf("BestMove value %v, minimum over %d enumerated placements %v", mv.Value(), count, best), Replay: hc})
 	}
+}
+
+// moveStillValid: every stop position of a (possibly nested) move still refers to planned, adjacent
+// neighbours, or to stops of the move itself — the solution changed elsewhere, not under the move.
+func moveStillValid(mv nextroute.SolutionMove) bool {
+	switch m := mv.(type) {
+	case nextroute.SolutionMoveStops:
+		sps := m.StopPositions()
+		own := map[int]bool{}
+		for _, sp := range sps {
+			own[sp.Stop().Index()] = true
+		}
+		for i, sp := range sps {
+			if sp.Stop().IsPlanned() {
+				return false
+			}
+			p, n := sp.Previous(), sp.Next()
+			if !own[p.Index()] && !p.IsPlanned() {
+				return false
+			}
+			if !own[n.Index()] && !n.IsPlanned() {
+				return false
+			}
+			// the planned neighbours enclosing this run of own stops must still be adjacent
+			if !own[p.Index()] {
+				j := i
+				for j < len(sps) && own[sps[j].Next().Index()] {
+					j++
+				}
+				if j < len(sps) {
+					nn := sps[j].Next()
+					if !nn.IsPlanned() || p.IsLast() || p.Next().Index() != nn.Index() {
+						return false
+					}
+				}
+			}
+		}
+		return len(sps) > 0
+	}
+	return false
 }
 
 // splitsDirectPair: does some chosen gap lie between two target stops tied by a direct precedence?
